@@ -41,9 +41,9 @@ CONSTANTS NGpu, GpuMem, NodeCpu, MaxPods,  \* the node
           MaxOps,     \* bound on the number of steps of a behaviour (nops = depth)
           Excl        \* set of excluded operation patterns (see the guards that mention Excl)
 
-VARIABLES nd, kinds, pods, ghost, A, log, phase, pc, seen, nops, act
+VARIABLES nd, kinds, pods, ghost, A, log, phase, pc, seen, nops, act, taint
 
-vars == <<nd, kinds, pods, ghost, A, log, phase, pc, seen, nops, act>>
+vars == <<nd, kinds, pods, ghost, A, log, phase, pc, seen, nops, act, taint>>
 view == <<pods, ghost, A, log, phase, pc, seen>>
 
 Statuses == {"None", "Allocated", "Pipelined", "Binding", "Bound", "Running", "Releasing"}
@@ -244,6 +244,7 @@ Init ==
   /\ A = EmptyAcct(Rng(GroupSeq))
   /\ log = <<>> /\ phase = "snap" /\ pc = <<>> /\ seen = 0 /\ nops = 0
   /\ act = Lbl("Init", "None", 0, "None", <<>>)
+  /\ taint = FALSE
 
 \* one NodeInfo call on pod p
 Do(op, call, p, st, grp) ==
@@ -408,13 +409,12 @@ CommitFail(p) ==
   /\ Do("Unallocate", "Remove", p, "None", <<>>)
   /\ UNCHANGED <<nd, kinds, ghost, phase, pc, seen>>
 
-Next ==
+Step ==
   \/ \E p \in Pods, st \in SnapSt : SnapAdd(p, st)
   \/ OpenSession
   \/ \E p \in Pods : PlaceA(p) \/ PlaceB(p) \/ Evict(p) \/ CommitFail(p)
   \/ UndoLast \/ ConvertStart \/ ConvertUnalloc \/ ConvertPipe \/ Commit
 
-Spec == Init /\ [][Next]_vars
 
 (* ------------------------------ invariants ------------------------------ *)
 TypeOK ==
@@ -456,12 +456,17 @@ MFailing ==
   \cup F("C02_Exclusive", C02_Exclusive)
   \cup F("C02_Distinct", C02_Distinct)
   \cup F("TypeOK", TypeOK)
-ModelTriage == IF MFailing = {} THEN TRUE
+ModelTriage == IF taint \/ MFailing = {} THEN TRUE
                ELSE PrintT("MVERDICT " \o ToJson([failing |-> MFailing, op |-> act.op, depth |-> nops]))
 
 \* a behaviour is followed until its first predicted failure: the failing state is reported, its
 \* incoming edge is exported, no transition leaves it (ACTION_CONSTRAINT on the source state)
 Clean == MFailing = {}
+
+\* taint = the source state of the step already failed a predicate (such steps are discarded by
+\* ACTION_CONSTRAINT Edge; TLC still evaluates INVARIANTs on their target, which must not be reported)
+Next == Step /\ taint' = ~Clean
+Spec == Init /\ [][Next]_vars
 
 (* edge export (BUILDING.md option b): ACTION_CONSTRAINT Edge, VIEW view, -workers 1 *)
 \* (ToJson of whole states is ~20x slower than ToString; the states are only needed as identities)
